@@ -77,8 +77,7 @@ Definition spec_channels (c : spec_color) : Z :=
 (* tRNS for colour types 0 and 2: only the low `d` bits of each 16-bit value are significant *)
 Definition key_match (d : Z) (key sample : Z) : bool := key mod 2 ^ d =? sample.
 
-Definition pixel_color (c : spec_color) (d : Z) (bits : list bool) : option rgba16 :=
-  let samples := map sval (groups (Z.to_nat d) bits) in
+Definition color_of_samples (c : spec_color) (d : Z) (samples : list Z) : option rgba16 :=
   match c, samples with
   | SGray key, [v] =>
       let g := scale16 d v in
@@ -99,6 +98,21 @@ Definition pixel_color (c : spec_color) (d : Z) (bits : list bool) : option rgba
   | SRGBA, [r; g; b; a] => Some (scale16 d r, scale16 d g, scale16 d b, scale16 d a)
   | _, _ => None
   end.
+
+Definition pixel_color (c : spec_color) (d : Z) (bits : list bool) : option rgba16 :=
+  color_of_samples c d (map sval (groups (Z.to_nat d) bits)).
+
+(* C15: the meaning of a 16-bit pixel after every sample (and the colour key) has been rounded
+   to the nearest 8-bit value: round(v / 257) = (v + 128) / 257 *)
+Definition round8 (v : Z) : Z := (v + 128) / 257.
+Definition round_key (c : spec_color) : spec_color :=
+  match c with
+  | SGray (Some k) => SGray (Some (round8 k))
+  | SRGB (Some (r, g, b)) => SRGB (Some (round8 r, round8 g, round8 b))
+  | _ => c
+  end.
+Definition pixel_color_scaled (c : spec_color) (bits : list bool) : option rgba16 :=
+  color_of_samples (round_key c) 8 (map round8 (map sval (groups 16 bits))).
 
 Record picture := { pic_w : Z; pic_h : Z; pic_px : list (list rgba16) }.
 
@@ -129,6 +143,18 @@ Definition spec_sem (w h : Z) (c : spec_color) (d : Z) (il : bool) (data : list 
       end
   end.
 
+(* C15: meaning of a 16-bit image after scaling to 8 bits *)
+Definition spec_sem_scaled (w h : Z) (c : spec_color) (il : bool) (data : list Z) : option picture :=
+  if negb (depth_legal c 16) then None else
+  match spec_image_pixels w h (16 * spec_channels c) il data with
+  | None => None
+  | Some rows =>
+      match all_some (map (fun r => all_some (map (pixel_color_scaled c) r)) rows) with
+      | Some px => Some {| pic_w := w; pic_h := h; pic_px := px |}
+      | None => None
+      end
+  end.
+
 (* ------------------------------------------------------------------ relations on pictures *)
 Definition rgba_eqb (a b : rgba16) : bool :=
   let '(r1, g1, b1, a1) := a in let '(r2, g2, b2, a2) := b in
@@ -150,7 +176,5 @@ Definition picture_eqb (p q : picture) : bool :=
 Definition picture_alpha_equivb (p q : picture) : bool :=
   (pic_w p =? pic_w q) && (pic_h p =? pic_h q) && forall2b (forall2b rgba_alpha_equivb) (pic_px p) (pic_px q).
 
-(* C15: rounding of a 16-bit value to the nearest multiple of 257 *)
-Definition round8 (v : Z) : Z := (v + 128) / 257.
 Definition scaled_rgba (p : rgba16) : rgba16 :=
   let '(r, g, b, a) := p in (257 * round8 r, 257 * round8 g, 257 * round8 b, 257 * round8 a).
